@@ -31,7 +31,7 @@ PROPS["C09"] = {
     "pkgs": ["gbn"],
     "level": "exploration",
     "quick_budget": 50, "thorough_budget": 1500,
-    "rule": "Three sub-batches. window-wire: simulated bidirectional traffic (N drawn from 1..254, lossy/duplicating/delaying links, static/adaptive timeouts, keepalive on/off) with a black-box wire monitor (first transmissions minus cumulative acknowledgements delivered) and white-box queue invariants evaluated at every transmission. send-blocks: acknowledgements withheld after the handshake, count of returned Sends compared with N, then released. window-arith: exhaustive enumeration, per sequence space s in {2..40,64,65,128,129,200,254,255}, of every (base,top) x every ACK and NACK byte value through the real processACK/processNACK." + SIG_RULE + " For the enumerated sub-batch a case is one s; its signature is s.",
+    "rule": "Three sub-batches. window-wire: simulated bidirectional traffic (N drawn from 1..254, lossy/duplicating/delaying links, static/adaptive timeouts, keepalive on/off) with a black-box wire monitor (first transmissions minus cumulative acknowledgements delivered) and white-box queue invariants evaluated at every transmission. send-blocks: acknowledgements withheld after the handshake, count of returned Sends compared with N, then released. window-arith: exhaustive enumeration, per sequence space s in {2..40,64,65,128,129,200,254,255}, of every (base,top) x every ACK and NACK byte value through the real processACK/processNACK. send-wakeup: a stream of messages over a fault-free (in half of the runs zero-latency) link with a resend timeout of seconds - no Send may take longer than a round trip plus a margin; scripted: ACKs of a full window lost, a DATA packet duplicated, the NACK(top) that empties the window must release the blocked Send." + SIG_RULE + " For the enumerated sub-batch a case is one s; its signature is s.",
     "assumptions": ["wire monitor counts an ACK as processed when the transport delivers it, which can only under-estimate what the sender considers outstanding (sound for the <= N claim)"],
     "components": GBN_COMPONENTS,
     "expected_probes": ["c09.window-filled", "c09.retransmission", "c09.arith-cases"],
@@ -103,10 +103,10 @@ PROPS["C20"] = {
     "pkgs": ["gbn"],
     "level": "exploration",
     "quick_budget": 50, "thorough_budget": 1200,
-    "rule": "model-sequential: histories of 20..220 events over {Sent(DATA seq), Resent(DATA seq), Received(ACK seq), Sent(SYN, resent?), Received(SYN|SYNACK), packets without timing information} on 2..7 reused sequence numbers, separated by virtual delays of 0, milliseconds, seconds, 0..5 x the current timeout, or the boost interval +-1 ms; multipliers 1..20, update frequencies 1..300, boost 1..300 %, static mode with arbitrary values; after every event GetResendTimeout/GetHandshakeTimeout are compared with a reference model written from the property statement. invariants-concurrent: three tasks (send loop, receive loop, reader/setter) drive one manager; floor, static-constant and no-deadlock invariants." + SIG_RULE,
+    "rule": "model-sequential: histories of 20..220 events over {Sent(DATA seq), Resent(DATA seq), Received(ACK seq), Sent(SYN, resent?), Received(SYN|SYNACK), packets without timing information} on 2..7 reused sequence numbers, separated by virtual delays of 0, milliseconds, seconds, 0..5 x the current timeout, or the boost interval +-1 ms; multipliers 1..20, update frequencies 1..300, boost 1..300 %, static mode with arbitrary values; after every event GetResendTimeout/GetHandshakeTimeout are compared with a reference model written from the property statement. invariants-concurrent: three tasks (send loop, receive loop, reader/setter) drive one manager; floor, static-constant and no-deadlock invariants. conn-karn: the manager inside a live adaptive-mode pair with a lossy link and transport write calls that return 0-2 s late; at every ACK for a packet transmitted more than once the base resend timeout must be unchanged by its processing." + SIG_RULE,
     "assumptions": ["the reference model encodes: timeout = max(1 s, multiplier x last eligible RTT) x (1 + boost x k), k incremented by a DATA resend at most once per base-timeout interval and reset by an eligible sample, a sample is eligible only if its transmission was never followed by a resend of the same number, recomputation every `frequency` eligible samples (and on the first one)", "comparison tolerance 1e-5 relative + 1 us (float32 arithmetic in the boost)"],
     "components": {"gbn/timeout_manager.go (TimeoutManager, TimeoutBooster)": "real code, instrumented", "clock": "virtual (synctest bubble)", "rest of gbn": "not involved"},
-    "expected_probes": ["c20.sample-taken", "c20.ends-boosted"],
+    "expected_probes": ["c20.ack-of-resent-packet", "c20.sample-taken", "c20.ends-boosted"],
     "level_text": EXPL_TEXT + " The oracle is refinement against an executable reference model, event by event.",
     "level_note": LEVEL_NOTE_GBN,
 }
@@ -185,7 +185,7 @@ PROPS["C02"] = {
     "pkgs": ["mailbox"],
     "level": "fault_enumeration",
     "quick_budget": 70, "thorough_budget": 1800,
-    "rule": "Enumerated: every single-bit flip of one full wire record (18-byte encrypted header, body, 16-byte MAC) for body sizes {0,1,17,65535} at record index {0,499,500} (around the first key rotation) in XX and KK sessions, each flip against a fresh copy of the reader's cipher state (quick: body bits of the 65535-byte record every 101st bit; thorough: all). Sampled: sessions exposed through Machine.ReadMessage/WriteMessage+Flush, NoiseGrpcConn or NoiseConn, 1..12 and 0..7 records per direction (sizes 0..2000, occasionally 65535), scripts of 1-4 edits from {drop, duplicate, swap, replay-earlier, reflect-from-other-direction, truncate, inject, bit flip, splice} at record boundaries and mid-record offsets applied to one or both directions; readers run as tasks until the first error and four more attempts. Oracle: returned plaintext is a byte prefix of what was written; no successful read after the first error; untouched streams are delivered completely. Readers use either one large buffer per Read or small and varying ones (a record handed out over several Reads); slices returned by ReadMessage are kept and compared again at the end of the run." + SIG_RULE,
+    "rule": "Enumerated: every single-bit flip of one full wire record (18-byte encrypted header, body, 16-byte MAC) for body sizes {0,1,17,65535} at record index {0,499,500} (around the first key rotation) in XX and KK sessions, each flip against a fresh copy of the reader's cipher state (quick: body bits of the 65535-byte record every 101st bit; thorough: all). Sampled: sessions exposed through Machine.ReadMessage/WriteMessage+Flush, NoiseGrpcConn or NoiseConn, 1..12 and 0..7 records per direction (sizes 0..2000, occasionally 65535), scripts of 1-4 edits from {drop, duplicate, swap, replay-earlier, reflect-from-other-direction, truncate, inject, bit flip, splice} at record boundaries and mid-record offsets applied to one or both directions; readers run as tasks until the first error and four more attempts. Oracle: returned plaintext is a byte prefix of what was written; no successful read after the first error; untouched streams are delivered completely. Readers use either one large buffer per Read or small and varying ones (a record handed out over several Reads); slices returned by ReadMessage are kept and compared again at the end of the run. stall-inside-record (enumerated): the stream is withheld at every byte offset inside a 2-byte record until the reader's deadline has fired, then delivered; record contents 0, 1, 2, 3, 18, 300 (what a parser that lost its place would read as lengths), three APIs, XX and KK." + SIG_RULE,
     "assumptions": ["the adversary works on the ciphertext produced by the authentic writer (it holds no keys)"],
     "components": NOISE_COMPONENTS,
     "expected_probes": ["c02.bit-flips", "c02.intact-prefix-delivered"],
